@@ -1,9 +1,13 @@
 #!/bin/bash
-# usage: tools_try.sh <patch.diff> <prop> [tier]   -- apply a seeded change to /repo, run one check, undo
+# usage: tools/try_patch.sh <patch.diff> <prop> [tier]
+# Runs one check against a scratch worktree of /repo with the seeded change applied (VERIF_REPO), so that
+# /repo itself is never modified while other checks are running. The worktree is removed afterwards.
 set -u
-P=$1; PROP=$2; TIER=${3:-quick}
-git -C /repo apply "$P" || { echo "patch does not apply"; exit 3; }
-( cd /verif && ./check "$PROP" --tier "$TIER" ); RC=$?
-git -C /repo checkout -- .
+P=$(readlink -f "$1"); PROP=$2; TIER=${3:-quick}
+WT=/tmp/wt_try_$$
+git -C /repo worktree add -q --detach "$WT" HEAD || exit 3
+git -C "$WT" apply "$P" || { echo "patch does not apply"; git -C /repo worktree remove --force "$WT"; exit 3; }
+( cd /verif && VERIF_REPO="$WT" ./check "$PROP" --tier "$TIER" ); RC=$?
+git -C /repo worktree remove --force "$WT"
 echo "exit=$RC"
 exit $RC
